@@ -36,9 +36,13 @@ def entries():
                         d[k] = v
                     if "witness" in d:
                         try:
-                            d["witness"] = json.loads(d["witness"])
-                        except Exception:
-                            pass
+                            if d["witness"].startswith("@"):
+                                d["witness"] = json.load(open(os.path.join(os.path.dirname(PATH), d["witness"][1:])))
+                            else:
+                                d["witness"] = json.loads(d["witness"])
+                        except Exception as e:
+                            d["witness_error"] = str(e)
+                            d["witness"] = None
                     _ENTRIES.append(d)
                 elif kind == "fixed":
                     m = re.search(r"property=(\S+)", rest)
@@ -47,9 +51,11 @@ def entries():
 
 
 def match(pid, qual, kind, label):
-    key = "%s/%s/%s" % (qual, kind, label)
+    prefix = "%s/%s/" % (qual, kind)
     for e in entries():
-        if e["kind"] == "known" and e.get("property") == pid and e.get("obligation") == key:
+        ob = e.get("obligation") or ""
+        if e["kind"] == "known" and e.get("property") == pid and ob.startswith(prefix) \
+                and label in ob[len(prefix):].split("+"):       # one defect may fail several clauses: a+b
             return e
     return None
 
